@@ -254,8 +254,11 @@ def run_vmh(exe, args, stdin_text=None, out_path=None, timeout=900, env=None):
             return -999, 'TIMEOUT'
 
 
-def run_driver(driver, trace_path):
-    rc, out, err, dt = sh([driver], stdin=open(trace_path, 'rb'), timeout=1800)
+def run_driver(driver, trace_path, timeout=1800):
+    # bounded stack / address space / time: a perturbed or shrunk candidate may carry absurd numbers that make
+    # the model build astronomically large unary naturals or lists; that must fail fast, not hang the check
+    rc, out, err, dt = sh('ulimit -s 1000000 2>/dev/null; ulimit -v 12000000 2>/dev/null; exec %s' % driver,
+                          stdin=open(trace_path, 'rb'), timeout=timeout)
     if rc != 0:
         raise CheckError('driver failed rc=%s: %s' % (rc, (out + err)[-2000:]))
     res = {'disagree': {}, 'specfail': set(), 'malformed': set(), 'summary': None}
@@ -418,7 +421,12 @@ class Session:
         rc, err = run_vmh(self.exe, ['replay', self.suite], stdin_text=text, out_path=tp, timeout=300,
                           env={'VMH_FLUSH': '1'})
         lines = [l.rstrip('\n') for l in open(tp)]
-        res = run_driver(self.driver, tp)
+        try:
+            res = run_driver(self.driver, tp, timeout=45)
+        except CheckError as ex:
+            # a perturbed / shrunk candidate made the model blow up: ignore this batch
+            log('note: driver failed on a candidate batch (%s); batch ignored' % str(ex)[:120])
+            return []
         out = []
         for i, l in enumerate(lines, 1):
             st = 'ok'
